@@ -1,5 +1,6 @@
 import XModel.TableRect
 import XModel.TableRect2
+import XModel.TableExpr
 /-!
 # C14 — every Table the API produces is rectangular and leaves its source untouched
 Model: the derivations of `XModel/Table.lean` (`selectRows`, `selectCols`, `copyT`, `mulT`, `addT`) on
@@ -12,8 +13,19 @@ compares shapes (numpy renders the transposed cells, and `concatenate` lists the
 **Which tree.**  The model transcribes `/repo` as it stands now (pinned commit plus the `fix:` commits, here D27: a string
 scalar of the table's length no longer becomes a column).
 
-**What has NO formal content here** (oracle / correspondence only): column EXPRESSIONS (`t['a+2*b']`, `t.cols['a+b']`) have
-no model; SCALAR entries do not exist in `newT` (every entry is a column) and for the nearest analogue — an unlisted data
+**Column expressions** (`t['a+2*b']`, `t.cols['a', 'a+b']`) are modelled in `XModel/TableExpr.lean` for ONE FRAGMENT: column
+names, integer literals, `+`, `-`, `*` and unary minus over INTEGER columns (unbounded integers; a literal is a scalar that
+is broadcast, two arrays combine element-wise).  `C14_expression_column_length`, `C14_expression_column_cells`,
+`C14_expression_columns_rect`, `C14_chain_with_expressions` speak about that fragment only and are conditional on the
+model's evaluation succeeding.  The model is stricter than Python: a non-integer cell under an operator, arrays of different
+lengths (no numpy broadcasting of a length-1 array) and an expression without any column (`t['2']`, a scalar in Python, and
+`t.cols['2']`, which in Python lists a scalar — NOT a rectangular table) are errors of the model, hence outside the theorems;
+an unknown name is `keyError` (Python: `NameError`).  Function calls, comparisons, `/`, `**`, floats, the names of `gblmath`,
+the parser of the text and numpy broadcasting stay with the oracle.  The driver runs `getExpr` (= `evalCol`) on generated integer expressions (`colexpr` lines of suite `table`, compared cell by
+cell with `t[text]`); `colsExpr` / `applyDerivE` are not run by the driver.
+
+**What has NO formal content here** (oracle / correspondence only): column expressions outside the fragment just described;
+SCALAR entries do not exist in `newT` (every entry is a column) and for the nearest analogue — an unlisted data
 entry — the model's `selectCols` / `copyT` drop it while the property says scalars are carried over; `C14_source_unchanged`
 is `rfl` on immutable values (its docstring says so); `C14_chain_rect` is the older chain theorem over `Deriv`, superseded by
 `C14_chain_from_constructor` over `Deriv2` (which includes assignments and a second table).  The chain theorems conclude
@@ -267,6 +279,61 @@ theorem C14_chain_from_constructor :
           (∀ (d : TableM.Deriv2), d ∈ ds → TableM.Deriv2.Valid d) →
             List.foldlM TableM.applyDeriv2 t ds = Except.ok r → TableM.Rect r :=
   @TableM.chain2_from_new
+
+/-- **`t['a+2*b']` has the table's length.**  MODEL FRAGMENT ONLY: column names, integer literals, `+`, `-`, `*`, unary minus
+    over integer columns (`TableM.CExpr`); functions, comparisons, floats and numpy broadcasting stay with the oracle; the driver
+    runs `evalCol` against `t[text]` on generated integer expressions.  Hypotheses: the table is rectangular; every name the expression mentions is a
+    LISTED column (`t[...]` also reads unlisted entries of the dict, whose length is arbitrary); the model's evaluation
+    succeeded (it fails on a missing name, a non-integer cell under an operator, arrays of different lengths, and — a
+    refusal of the model, Python returns a scalar — an expression without any column). -/
+theorem C14_expression_column_length :
+    ∀ (t : TableM.Tbl),
+      TableM.Rect t →
+        ∀ (e : TableM.CExpr),
+          (∀ (n : String), n ∈ e.names → n ∈ t.colNames) →
+            ∀ (v : List TableM.Cell), TableM.evalCol t e = Except.ok v → v.length = t.nrows :=
+  @TableM.evalCol_length
+
+/-- VALUES of an expression column, same fragment and hypotheses: cell `k` of `t['a+2*b']` is the expression evaluated on
+    the cells of row `k` alone (`evalAt`: integer arithmetic on that row's cells), for every row `k` of the table -/
+theorem C14_expression_column_cells :
+    ∀ (t : TableM.Tbl),
+      TableM.Rect t →
+        ∀ (e : TableM.CExpr),
+          (∀ (n : String), n ∈ e.names → n ∈ t.colNames) →
+            ∀ (v : List TableM.Cell),
+              TableM.evalCol t e = Except.ok v → ∀ (k : Nat), k < t.nrows → v[k]? = TableM.evalAt t k e :=
+  @TableM.evalCol_cell
+
+/-- **`t.cols['a', 'a+b']` is rectangular**, with the source's length and index.  MODEL FRAGMENT ONLY (as above; the driver
+    does not run `colsExpr` yet).  An item is a text with the expression it parses to (`none`: a plain name); `itemOK`: a
+    text that is a key of the dict is a listed column, a plain name is listed, the names inside an expression are listed.
+    Without it the model (like the code) lists an unlisted entry of any length (`TableExpr.lean`, last section). -/
+theorem C14_expression_columns_rect :
+    ∀ (t : TableM.Tbl),
+      TableM.Rect t →
+        ∀ (items : List (String × Option TableM.CExpr)),
+          (∀ (it : String × Option TableM.CExpr), it ∈ items → TableM.itemOK t it = true) →
+            ∀ (r : TableM.Tbl),
+              TableM.colsExpr t items = Except.ok r → TableM.Rect r ∧ r.nrows = t.nrows ∧ r.index = t.index :=
+  @TableM.colsExpr_rect
+
+/-- with plain names only, the expression form of `t.cols[…]` IS the `selectCols` of `C14_cols_rect` (same table, same error) -/
+theorem C14_expression_columns_plain_names :
+    ∀ (t : TableM.Tbl) (names : List String),
+      TableM.colsExpr t (List.map (fun n => (n, none)) names) = TableM.selectCols t names :=
+  @TableM.colsExpr_plain
+
+/-- **every chain** mixing `t.cols[…]` with expressions (model fragment only: `+ - *`, unary minus, integer columns; each such
+    step guarded by `itemOK`) with the steps of `C14_chain_from_constructor` (`DerivE.base`), starting from a table the
+    checked constructor accepted, ends rectangular.  The driver does not run `applyDerivE` yet. -/
+theorem C14_chain_with_expressions :
+    ∀ (cols : List (String × List TableM.Cell)) (index : String) (t : TableM.Tbl),
+      TableM.newT cols index = Except.ok t →
+        ∀ (ds : List TableM.DerivE) (r : TableM.Tbl),
+          (∀ (d : TableM.DerivE), d ∈ ds → d.Valid) →
+            List.foldlM TableM.applyDerivE t ds = Except.ok r → TableM.Rect r :=
+  @TableM.chainE_from_new
 
 end wrapped
 
